@@ -225,26 +225,29 @@ type c17Stmt struct {
 	Chs  []int     `json:"chs,omitempty"`  // sel: the channels of the select, in clause order
 	Tpos []int     `json:"tpos,omitempty"` // sel: clause positions (0 = first) of time-channel clauses
 	Shrt bool      `json:"shrt,omitempty"` // sel: the time channels fire (1 ms): the select is retried
+	Val  string    `json:"val,omitempty"`  // push: kind of the pushed object: "" fixnum, str, list, sym, nil, t, elist
 	Body []c17Stmt `json:"b,omitempty"`
 }
 
 type c17Prog struct {
-	Family   string      `json:"family"`
-	Shape    string      `json:"shape"`
-	Caps     []int       `json:"caps"`     // channel capacities
-	Kinds    []string    `json:"kinds"`    // counter storage kinds: global fslot cslot hash let
-	Guards   []int       `json:"guards"`   // counter -> mutex
-	NMutex   int         `json:"nmutex"`   //
-	Routines [][]c17Stmt `json:"routines"` // started with (run ...)
-	Main     []c17Stmt   `json:"main"`     // executed by the main thread itself (thread id = len(Routines))
-	Spawn    string      `json:"spawn"`    // how routines are started: "" nested method clos defun closure
-	NoModel  bool        `json:"nomodel"`  // the shape has no model run (channel-close / range)
-	Defens   bool        `json:"defens"`   // bursts re-enable synchronization of the instance on every iteration
-	Burst    bool        `json:"burst"`    // sweep cell: untraced bursts of guarded increments (no model run, no read log)
-	Shared   bool        `json:"shared"`   // sweep cell: all routines are started from one (run ...) form in a loop
-	Defun    bool        `json:"defun"`    // sweep cell: routines call one shared defun (first call concurrent)
-	Tables   [][]string  `json:"tables"`   // family tables: per routine the value forms (each traced)
-	Prelude  string      `json:"prelude"`  // family tables: definitions shared by the routines
+	Family   string             `json:"family"`
+	Shape    string             `json:"shape"`
+	Caps     []int              `json:"caps"`     // channel capacities
+	Kinds    []string           `json:"kinds"`    // counter storage kinds: global fslot cslot hash let
+	Guards   []int              `json:"guards"`   // counter -> mutex
+	NMutex   int                `json:"nmutex"`   //
+	Routines [][]c17Stmt        `json:"routines"` // started with (run ...)
+	Main     []c17Stmt          `json:"main"`     // executed by the main thread itself (thread id = len(Routines))
+	Spawn    string             `json:"spawn"`    // how routines are started: "" nested method clos defun closure
+	NoModel  bool               `json:"nomodel"`  // the shape has no model run (channel-close / range)
+	Defens   bool               `json:"defens"`   // bursts re-enable synchronization of the instance on every iteration
+	Burst    bool               `json:"burst"`    // sweep cell: untraced bursts of guarded increments (no model run, no read log)
+	Shared   bool               `json:"shared"`   // sweep cell: all routines are started from one (run ...) form in a loop
+	Defun    bool               `json:"defun"`    // sweep cell: routines call one shared defun (first call concurrent)
+	Tables   [][]string         `json:"tables"`   // family tables: per routine the value forms (each traced)
+	Loose    map[string][]int64 `json:"loose"`    // tables: "r-i" -> allowed values of a form whose value depends on the schedule
+	Finals   []string           `json:"finals"`   // tables: forms evaluated by the main thread after all routines finished
+	Prelude  string             `json:"prelude"`  // family tables: definitions shared by the routines
 }
 
 // expand unrolls repeat nodes (push values inside a repeat are V + iteration) and drops yields.
@@ -279,6 +282,7 @@ func c17Shift(s c17Stmt, i int) c17Stmt {
 	c := s
 	if s.Kind == "push" {
 		c.V = s.V + i
+		c.Ret = true // marks a push that sits in a loop (its object is computed, see c17ItemExpr)
 	}
 	if len(s.Body) > 0 {
 		c.Body = make([]c17Stmt, len(s.Body))
@@ -423,17 +427,89 @@ func (p *c17Prog) writeExpr(k int, x string) string {
 	}
 }
 
+// c17ItemExpr is the slip expression of the object a push sends. Item number V (+ loop index)
+// identifies it; nil, t and () carry no number (they are identified by their position in the
+// producer's sequence, see c17CheckRun).
+func c17ItemExpr(s c17Stmt, loopVar string) string {
+	num := strconv.Itoa(s.V)
+	if loopVar != "" {
+		num = fmt.Sprintf("(+ %d %s)", s.V, loopVar)
+	}
+	switch s.Val {
+	case "str":
+		if loopVar == "" {
+			return fmt.Sprintf("\"s%d\"", s.V)
+		}
+		return fmt.Sprintf("(format nil \"s~D\" %s)", num)
+	case "list":
+		return fmt.Sprintf("(list %s 'x)", num)
+	case "sym":
+		if loopVar == "" {
+			return fmt.Sprintf("'y%d", s.V)
+		}
+		return fmt.Sprintf("(list %s 'x)", num)
+	case "nil":
+		return "nil"
+	case "elist":
+		return "'()"
+	case "t":
+		return "t"
+	}
+	return num
+}
+
+// the kind an item of the given push kind is received as (sym pushed from a loop is a list; () is nil)
+func c17RecvKind(val string, inLoop bool) string {
+	switch val {
+	case "sym":
+		if inLoop {
+			return "list"
+		}
+	case "elist":
+		return "nil"
+	}
+	return val
+}
+
+var (
+	c17StrItemRe  = regexp.MustCompile(`^s(\d+)$`)
+	c17ListItemRe = regexp.MustCompile(`^<\((\d+) x\)>$`)
+	c17SymItemRe  = regexp.MustCompile(`^<y(\d+)>$`)
+)
+
+// c17DecodeItem: the number and kind of a received object as vtrace recorded it
+func c17DecodeItem(e c17Ev) (num int64, kind string, ok bool) {
+	if len(e.A) >= 3 && e.A[2] >= 0 && e.S == "" {
+		return e.A[2], "", true
+	}
+	if m := c17StrItemRe.FindStringSubmatch(e.S); m != nil && len(e.A) == 2 {
+		n, _ := strconv.ParseInt(m[1], 10, 64)
+		return n, "str", true
+	}
+	if m := c17ListItemRe.FindStringSubmatch(e.S); m != nil {
+		n, _ := strconv.ParseInt(m[1], 10, 64)
+		return n, "list", true
+	}
+	if m := c17SymItemRe.FindStringSubmatch(e.S); m != nil {
+		n, _ := strconv.ParseInt(m[1], 10, 64)
+		return n, "sym", true
+	}
+	switch e.S {
+	case "<nil>":
+		return -1, "nil", true
+	case "<t>":
+		return -1, "t", true
+	}
+	return -1, "", false
+}
+
 // render statements of routine r; held = mutexes entered since the nearest handler (innermost
 // last), needed to log the exits before an error leaves the sections.
 func (p *c17Prog) render(b *strings.Builder, r int, ss []c17Stmt, held []int, loopVar string, depth int) {
 	for _, s := range ss {
 		switch s.Kind {
 		case "push":
-			if loopVar != "" {
-				fmt.Fprintf(b, " (channel-push *ch%d* (+ %d %s))", s.Ch, s.V, loopVar)
-			} else {
-				fmt.Fprintf(b, " (channel-push *ch%d* %d)", s.Ch, s.V)
-			}
+			fmt.Fprintf(b, " (channel-push *ch%d* %s)", s.Ch, c17ItemExpr(s, loopVar))
 		case "pop":
 			fmt.Fprintf(b, " (vtrace 'rv %d %d (channel-pop *ch%d*))", r, s.Ch, s.Ch)
 		case "incr":
@@ -612,7 +688,11 @@ func (p *c17Prog) source(sequential bool) string {
 		for r, forms := range p.Tables {
 			var body strings.Builder
 			for i, f := range forms {
-				fmt.Fprintf(&body, " (vtrace 'val %d %d %s)", r, i, f)
+				tag := "val"
+				if _, loose := p.Loose[fmt.Sprintf("%d-%d", r, i)]; loose {
+					tag = "lv" // not compared with the sequential run: checked against its allowed set
+				}
+				fmt.Fprintf(&body, " (vtrace '%s %d %d %s)", tag, r, i, f)
 			}
 			if sequential {
 				fmt.Fprintf(&b, "(progn%s (channel-push *done* %d))\n", body.String(), r)
@@ -621,6 +701,9 @@ func (p *c17Prog) source(sequential bool) string {
 			}
 		}
 		fmt.Fprintf(&b, "(dotimes (i %d) (channel-pop *done*))\n", n)
+		for i, f := range p.Finals {
+			fmt.Fprintf(&b, "(vtrace 'val 99 %d %s)\n", i, f)
+		}
 		return b.String()
 	}
 	// the part that may sit inside a let (let-bound counters)
@@ -1093,6 +1176,59 @@ func c17GenRangeClose(rng *lib.Rng, maxOps int) *c17Prog {
 	return p
 }
 
+// c17OddValues varies the objects that travel through the channels: strings, lists, symbols
+// anywhere; nil, () and t (which carry no item number) from the first producer of a channel that
+// has a single consumer thread, where the position in the sequence identifies them.
+func c17OddValues(rng *lib.Rng, p *c17Prog) {
+	consumers := map[int]map[int]bool{}
+	firstProd := map[int]int{}
+	var scan func(t int, ss []c17Stmt)
+	scan = func(t int, ss []c17Stmt) {
+		for _, s := range ss {
+			switch s.Kind {
+			case "pop", "rangeall":
+				if consumers[s.Ch] == nil {
+					consumers[s.Ch] = map[int]bool{}
+				}
+				consumers[s.Ch][t] = true
+			case "sel":
+				for _, ch := range s.Chs {
+					if consumers[ch] == nil {
+						consumers[ch] = map[int]bool{}
+					}
+					consumers[ch][t] = true
+				}
+			case "push":
+				if _, has := firstProd[s.Ch]; !has {
+					firstProd[s.Ch] = t
+				}
+			}
+			scan(t, s.Body)
+		}
+	}
+	ts := p.threads()
+	for t, ss := range ts {
+		scan(t, ss)
+	}
+	var assign func(t int, ss []c17Stmt)
+	assign = func(t int, ss []c17Stmt) {
+		for i := range ss {
+			if ss[i].Kind == "push" {
+				kinds := []string{"", "", "str", "list", "sym"}
+				if len(consumers[ss[i].Ch]) == 1 && firstProd[ss[i].Ch] == t {
+					kinds = append(kinds, "nil", "nil", "t", "elist")
+				}
+				ss[i].Val = kinds[rng.Intn(len(kinds))]
+			}
+			assign(t, ss[i].Body)
+		}
+	}
+	for t := range p.Routines {
+		assign(t, p.Routines[t])
+	}
+	assign(len(p.Routines), p.Main)
+}
+
 var c17Spawns = []string{"nested", "method", "clos", "defun", "closure"}
 
 // defensive (set-synchronized inst t) at the start of every routine and between its statements
@@ -1249,6 +1385,89 @@ const c17TablesWarm = `(list (c17f0 1) (c17f1 1) (c17f1 999) (c17f2 1))
 (let ((o (make-instance 'c17fl2 :x 1))) (send o :set-x (+ (send o :x) 1)) (list (send o :bump 2) (send o :twice) (send o :x)))
 `
 
+// family tables, shape dispatch-race: every generic function has one routine that adds, redefines
+// and removes methods on it (and calls it right after each change: it must see its own change)
+// while the other routines keep calling the same generic functions with instances of all classes.
+// Method bodies are fixnum atoms (tag = class*1000 + version), so no code is compiled on first call.
+// After all routines finished the main thread calls every (generic, class) pair: the values must be
+// those of a sequential run, i.e. the final method tables.
+func c17GenDispatchRace(rng *lib.Rng, opsPerGen, callsPerCaller, ngen, ncallers int) *c17Prog {
+	p := &c17Prog{Family: "tables", Shape: "dispatch-race", Loose: map[string][]int64{}}
+	parent := []int{-1, -1, 1, 2, 0} // k0, k1 under root; k2 under k1; k3 under k2; k4 under k0
+	var pre strings.Builder
+	pre.WriteString("(defclass c17root () ())\n")
+	for c, par := range parent {
+		sup := "c17root"
+		if par >= 0 {
+			sup = fmt.Sprintf("c17k%d", par)
+		}
+		fmt.Fprintf(&pre, "(defclass c17k%d (%s) ())\n", c, sup)
+	}
+	for g := 0; g < ngen; g++ {
+		fmt.Fprintf(&pre, "(defgeneric c17r%d (x))\n(defmethod c17r%d ((x c17root)) 0)\n", g, g)
+	}
+	p.Prelude = pre.String()
+	ndef := 1 + rng.Intn(2)
+	definers := make([][]string, ndef)
+	tags := make([]map[int][]int64, ngen) // generic -> class -> every tag ever defined
+	for g := 0; g < ngen; g++ {
+		tags[g] = map[int][]int64{}
+		d := g % ndef
+		defined := map[int]bool{}
+		version := 0
+		for i := 0; i < opsPerGen; i++ {
+			// two or three changes back to back: the first empties the dispatch cache, so the
+			// callers compute effective methods while the next change is being made
+			var ops []string
+			for b := 0; b < 2+rng.Intn(2); b++ {
+				c := rng.Intn(len(parent))
+				if defined[c] && rng.Chance(30) {
+					ops = append(ops, fmt.Sprintf("(remove-method 'c17r%d (find-method 'c17r%d '() '(c17k%d)))", g, g, c))
+					defined[c] = false
+				} else {
+					version++
+					tag := int64((c+1)*1000 + version)
+					ops = append(ops, fmt.Sprintf("(defmethod c17r%d ((x c17k%d)) %d)", g, c, tag))
+					tags[g][c] = append(tags[g][c], tag)
+					defined[c] = true
+				}
+			}
+			// after its changes (and a pause in which the callers run) the definer calls the generic
+			// function with an instance of every class: it must see exactly its own method table
+			var probes []string
+			for k := range parent {
+				probes = append(probes, fmt.Sprintf("(c17r%d (make-instance 'c17k%d))", g, k))
+			}
+			definers[d] = append(definers[d], fmt.Sprintf("(progn %s (vyield) (list %s))", strings.Join(ops, " "), strings.Join(probes, " ")))
+		}
+	}
+	for _, forms := range definers {
+		p.Tables = append(p.Tables, forms)
+	}
+	for q := 0; q < ncallers; q++ {
+		r := len(p.Tables)
+		var forms []string
+		for i := 0; i < callsPerCaller; i++ {
+			g, c := rng.Intn(ngen), rng.Intn(len(parent))
+			// a burst of calls: whichever of them comes first after a change of the generic function
+			// computes the effective method anew
+			forms = append(forms, fmt.Sprintf("(let ((o (make-instance 'c17k%d)) (v 0)) (dotimes (j 4) (setq v (c17r%d o))) v)", c, g))
+			allowed := []int64{0}
+			for k := c; k >= 0; k = parent[k] {
+				allowed = append(allowed, tags[g][k]...)
+			}
+			p.Loose[fmt.Sprintf("%d-%d", r, i)] = allowed
+		}
+		p.Tables = append(p.Tables, forms)
+	}
+	for g := 0; g < ngen; g++ {
+		for c := range parent {
+			p.Finals = append(p.Finals, fmt.Sprintf("(c17r%d (make-instance 'c17k%d))", g, c))
+		}
+	}
+	return p
+}
+
 // family tables: routines that define and use their own variables, functions, flavors, classes,
 // methods on a shared generic function, and print
 func c17GenTables(rng *lib.Rng, maxOps int, definers, warm bool) *c17Prog {
@@ -1364,6 +1583,19 @@ func c17CheckRun(c *lib.Ctx, cs *c17Case, run *c17Run, model map[string]string, 
 			if e.T == "val" && len(e.A) >= 2 {
 				got[[2]int64{e.A[0], e.A[1]}] = c17ValString(e)
 			}
+			if e.T == "lv" && len(e.A) >= 2 {
+				allowed := p.Loose[fmt.Sprintf("%d-%d", e.A[0], e.A[1])]
+				ok := false
+				for _, a := range allowed {
+					if len(e.A) >= 3 && e.A[2] == a && e.S == "" {
+						ok = true
+					}
+				}
+				if !ok {
+					form := p.Tables[e.A[0]][e.A[1]]
+					add("aspect=value-during-race op="+c17FormOp(form), fmt.Sprintf("%s => %s", form, c17ValString(e)), fmt.Sprintf("one of %v", allowed))
+				}
+			}
 		}
 		keys := make([][2]int64, 0, len(seqVals))
 		for k := range seqVals {
@@ -1374,7 +1606,12 @@ func c17CheckRun(c *lib.Ctx, cs *c17Case, run *c17Run, model map[string]string, 
 		})
 		for _, k := range keys {
 			if g, ok := got[k]; !ok || g != seqVals[k] {
-				form := p.Tables[k[0]][k[1]]
+				form := "?"
+				if k[0] == 99 && int(k[1]) < len(p.Finals) {
+					form = "after quiescence: " + p.Finals[k[1]]
+				} else if int(k[0]) < len(p.Tables) {
+					form = p.Tables[k[0]][k[1]]
+				}
 				add("aspect=value op="+c17FormOp(form), fmt.Sprintf("%s => %q", form, g), fmt.Sprintf("%q (sequential run)", seqVals[k]))
 			}
 		}
@@ -1398,12 +1635,27 @@ func c17CheckRun(c *lib.Ctx, cs *c17Case, run *c17Run, model map[string]string, 
 	}
 	incrs := make([]int, len(p.Kinds))
 	whoSent := map[[2]int]int{} // (channel, value) -> producer
+	type sentItem struct {
+		v    int
+		kind string
+	}
+	sentKind := map[[2]int]string{}
+	seqOf := map[[2]int][]sentItem{} // (channel, producer) -> its items in order
+	anonProd := map[int]int{}        // channel -> the producer that sends numberless items (nil, t)
+	anonPtr := map[int]int{}         // channel -> next item of that producer the (single) consumer expects
+	unknown := 0
 	for t, ss := range threads {
 		c17Walk(c17Expand(ss), func(s c17Stmt) {
 			switch s.Kind {
 			case "push":
 				sent[s.Ch][t] = append(sent[s.Ch][t], s.V)
 				whoSent[[2]int{s.Ch, s.V}] = t
+				k := c17RecvKind(s.Val, s.Ret)
+				sentKind[[2]int{s.Ch, s.V}] = k
+				seqOf[[2]int{s.Ch, t}] = append(seqOf[[2]int{s.Ch, t}], sentItem{s.V, k})
+				if k == "nil" || k == "t" {
+					anonProd[s.Ch] = t
+				}
 			case "incr":
 				incrs[s.K]++
 			}
@@ -1419,15 +1671,36 @@ func c17CheckRun(c *lib.Ctx, cs *c17Case, run *c17Run, model map[string]string, 
 	for _, e := range run.Res.Trace {
 		switch e.T {
 		case "rv":
-			if len(e.A) >= 3 && e.A[1] >= 0 && int(e.A[1]) < nch {
-				item := "99999.0" // not a number: an item nobody sent
-				if e.A[2] >= 0 {
-					item = fmt.Sprintf("99999.%d", e.A[2])
-					if prod, ok := whoSent[[2]int{int(e.A[1]), int(e.A[2])}]; ok {
-						item = fmt.Sprintf("%d.%d", prod, e.A[2])
+			if len(e.A) >= 2 && e.A[1] >= 0 && int(e.A[1]) < nch {
+				ch := int(e.A[1])
+				unknown++
+				item := fmt.Sprintf("99999.%d", unknown) // an object nobody sent
+				num, kind, ok := c17DecodeItem(e)
+				switch {
+				case !ok:
+				case kind == "nil" || kind == "t":
+					// numberless: it is the next item the (single) consumer of this channel expects
+					// from the one producer that sends such objects, if that item has this kind
+					if ap, has := anonProd[ch]; has {
+						seq := seqOf[[2]int{ch, ap}]
+						if j := anonPtr[ch]; j < len(seq) && seq[j].kind == kind {
+							item = fmt.Sprintf("%d.%d", ap, seq[j].v)
+							anonPtr[ch] = j + 1
+						}
+					}
+				default:
+					if prod, has := whoSent[[2]int{ch, int(num)}]; has && sentKind[[2]int{ch, int(num)}] == kind {
+						item = fmt.Sprintf("%d.%d", prod, num)
+						if ap, has := anonProd[ch]; has && ap == prod {
+							for j, si := range seqOf[[2]int{ch, ap}] {
+								if si.v == int(num) && j >= anonPtr[ch] {
+									anonPtr[ch] = j + 1
+								}
+							}
+						}
 					}
 				}
-				recv[e.A[1]][int(e.A[0])] = append(recv[e.A[1]][int(e.A[0])], item)
+				recv[ch][int(e.A[0])] = append(recv[ch][int(e.A[0])], item)
 			}
 		case "en":
 			mlog = append(mlog, fmt.Sprintf("e.%d.%d", e.A[0], e.A[1]))
@@ -1631,6 +1904,9 @@ func c17ValString(e c17Ev) string {
 }
 
 func c17FormOp(form string) string {
+	if strings.Contains(form, "c17r") {
+		return "dispatch-race"
+	}
 	for _, op := range []string{"defflavor", "defclass", "defgeneric", "defstruct", "defmacro", "defun", "format", "*print-pretty*", "*print-base*", "princ-to-string", "defvar", "c17g", "c17fl", "c17f"} {
 		if strings.Contains(form, op) {
 			return op
@@ -1738,6 +2014,30 @@ func c17Cells() []*c17Case {
 		}
 		cells = append(cells, &c17Case{Prog: p, Cell: "select-" + pat, Procs: []int{4}})
 	}
+	// objects of every kind through a channel, nil / () / t included, for every kind of consumer
+	for _, cons := range []string{"pop", "select", "range", "pop-multi"} {
+		kinds := []string{"nil", "", "str", "t", "list", "elist", "sym", "nil"}
+		if cons == "pop-multi" {
+			kinds = []string{"", "str", "list", "sym"}
+		}
+		var prod []c17Stmt
+		for i := 0; i < 64; i++ {
+			prod = append(prod, c17Stmt{Kind: "push", Ch: 0, V: i, Val: kinds[i%len(kinds)]})
+		}
+		p := &c17Prog{Family: "chan", Shape: "odd-" + cons, Caps: []int{3}}
+		switch cons {
+		case "pop":
+			p.Routines = [][]c17Stmt{prod, {c17Rep(64, c17Pop(0))}}
+		case "pop-multi":
+			p.Routines = [][]c17Stmt{prod, {c17Rep(24, c17Pop(0))}, {c17Rep(40, c17Pop(0))}}
+		case "select":
+			p.Routines = [][]c17Stmt{prod, {c17Rep(64, c17Stmt{Kind: "sel", Chs: []int{0}, Tpos: []int{0}})}}
+		case "range":
+			p.NoModel = true
+			p.Routines = [][]c17Stmt{append(prod, c17Stmt{Kind: "close", Ch: 0}), {{Kind: "rangeall", Ch: 0}}}
+		}
+		cells = append(cells, &c17Case{Prog: p, Cell: "odd-" + cons, Procs: []int{4}})
+	}
 	{
 		p := &c17Prog{Family: "chan", Shape: "range-close", Caps: []int{3}, NoModel: true}
 		p.Routines = [][]c17Stmt{{c17Rep(150, c17Push(0, 0)), {Kind: "close", Ch: 0}}, {{Kind: "rangeall", Ch: 0}}, {{Kind: "rangeall", Ch: 0}}}
@@ -1819,6 +2119,11 @@ func c17Cells() []*c17Case {
 			p.Tables = append(p.Tables, forms)
 		}
 		cells = append(cells, &c17Case{Prog: p, Cell: "dispatch", Procs: []int{4, 16}})
+	}
+	// methods added, redefined and removed on generic functions that other routines are calling
+	{
+		p := c17GenDispatchRace(lib.NewRng(17), 60, 200, 2, 6)
+		cells = append(cells, &c17Case{Prog: p, Cell: "dispatch-race", Procs: []int{4, 16, 2, 8, 4, 16}})
 	}
 	// new global variables from several routines at once (the package's variable table)
 	{
@@ -1902,7 +2207,11 @@ func c17Generate(c *lib.Ctx) []*c17Case {
 		case 10, 11:
 			p = c17GenSelect(rng, ops)
 		case 12:
-			p = c17GenRangeClose(rng, ops)
+			if rng.Bool() {
+				p = c17GenRangeClose(rng, ops)
+			} else {
+				p = c17GenDispatchRace(rng, 2+rng.Intn(min(ops, 40)), 1+rng.Intn(min(ops, 120)), 1+rng.Intn(3), 2+rng.Intn(5))
+			}
 		case 0, 1:
 			p = c17GenFan(rng, ops, false)
 		case 2:
@@ -1917,6 +2226,9 @@ func c17Generate(c *lib.Ctx) []*c17Case {
 			p = c17GenSync(rng, ops)
 		default:
 			p = c17GenTables(rng, min(ops, 60), !listedDefine, listedCold)
+		}
+		if (p.Family == "chan" || p.Family == "mixed") && rng.Chance(60) {
+			c17OddValues(rng, p)
 		}
 		cs := &c17Case{Prog: p}
 		if c.Thorough() {
@@ -2081,13 +2393,15 @@ func runC17(c *lib.Ctx) {
 					jobs = append(jobs, job{cs, []int{4, 2, 16}[rep%3], rb, uint64(rep + 1)})
 				}
 			}
-			for _, cs := range c17Cells() {
-				if strings.HasPrefix(cs.Cell, "define-") && c.Findings.Listed("C17", "cell="+cs.Cell+" ") {
-					continue // dies with a listed fatal error anyway; the race detector adds nothing
+			for rep := 0; rep < repeat; rep++ {
+				for _, cs := range c17Cells() {
+					if strings.HasPrefix(cs.Cell, "define-") && c.Findings.Listed("C17", "cell="+cs.Cell+" ") {
+						continue // dies with a listed fatal error anyway; the race detector adds nothing
+					}
+					rc := *cs
+					rc.Race = true
+					jobs = append(jobs, job{&rc, []int{4, 16, 2}[rep%3], rb, uint64(rep + 1)})
 				}
-				rc := *cs
-				rc.Race = true
-				jobs = append(jobs, job{&rc, 4, rb, 1})
 			}
 			// composite programs under the race detector: every routine has its own code
 			sub := lib.NewRng(c.Seed ^ 0xC17)
@@ -2095,9 +2409,15 @@ func runC17(c *lib.Ctx) {
 			c.Rng = sub
 			gen := c17Generate(c)
 			c.Rng = saved
+			listedRedef := c.Findings.Listed("C17", "cell=dispatch-race race ")
 			for i, cs := range gen {
 				if i >= 300 {
 					break
+				}
+				if listedRedef && cs.Prog.Shape == "dispatch-race" {
+					// redefining a method while it is being called is a listed race (the method object
+					// is updated in place): composite programs stay away from it under the race detector
+					continue
 				}
 				rc := *cs
 				rc.Race = true
